@@ -77,6 +77,7 @@ def construct(kind, mode, why):
         except LibRaised as e:
             why.append((f"construct:module-path-raised:{e.kind}", dict(error=str(e))))
             return None, None
+        construct.user_module = (m, mptr)
         if st.rbm_am is not m or [p.data_ptr() for p in st.rbm_am.parameters()] != mptr:
             why.append(("construct:amplitude-network-is-not-the-supplied-module", None))
         if len(st.networks) > 1:
@@ -229,8 +230,13 @@ def check_history(acc, kind, mode, hist, flagged):
                 apply_op(st, kind, op, why, shapes)
                 independence(st, why, op)
                 acc.transitions += 1
-                if mode.startswith("module") and st.rbm_am is None:
-                    why.append(("construct:amplitude-network-lost", None))
+                if mode.startswith("module") and not why:
+                    # "uses that RBM as the amplitude network" is a standing contract: after reinitialising or
+                    # training, the user's module OBJECT is still what the state uses (its parameter tensors may
+                    # legitimately be re-created: initialize_parameters() binds fresh nn.Parameter objects)
+                    m, mptr = construct.user_module
+                    if st.rbm_am is not m:
+                        why.append(("construct:supplied-module-no-longer-the-amplitude-network", dict(after=op)))
     except LibRaised as e:
         why.append((f"contracts:raised:{e.kind}:{e.site}", dict(tb=e.tb)))
     acc.ev(1, nontrivial=any(o.startswith("fit") or o == "reinit" for o in hist))
